@@ -4,6 +4,7 @@ import (
 	"bufio"
 	"bytes"
 	"fmt"
+	"math/big"
 	"os/exec"
 	"strconv"
 	"strings"
@@ -60,6 +61,38 @@ func TestC01_Model(t *testing.T) {
 type ParsedPair struct {
 	A WellFormed `json:"a"`
 	B WellFormed `json:"b"`
+	// Via: how the first operand's value is made from its text: 0 version.Parse; 1 UnmarshalControl,
+	// 2 UnmarshalText into a Version variable that received Prev (another well-formed text) before
+	Via  int    `json:"via,omitempty"`
+	Prev string `json:"prev,omitempty"`
+	// Beyond: when set, the first operand's epoch is written as this decimal number, which no
+	// Version can hold (more than the platform's uint): the text is not a version for this library
+	// and Parse refuses it; should it be taken after all, its epoch is above every epoch the second
+	// operand can carry
+	Beyond string `json:"beyond,omitempty"`
+}
+
+// beyondUint draws a decimal number above the platform's uint: just above, a multiple of 2^32 / 2^64
+// plus a little, or 11..26 random digits
+func beyondUint(t *rapid.T, label string) string {
+	max := new(big.Int).SetUint64(uint64(^uint(0)))
+	n := new(big.Int)
+	switch rapid.IntRange(0, 3).Draw(t, label+"k") {
+	case 0:
+		n.Add(max, big.NewInt(int64(rapid.IntRange(1, 100000).Draw(t, label+"d"))))
+	case 1:
+		n.Add(max, big.NewInt(1))
+		n.Mul(n, big.NewInt(int64(rapid.IntRange(1, 1000).Draw(t, label+"m"))))
+		n.Add(n, big.NewInt(int64(rapid.IntRange(0, 1<<30).Draw(t, label+"a"))))
+	default:
+		digits := genFromAlphabet(t, label+"dig", "0123456789", 10, 25)
+		n.SetString(rapid.SampledFrom([]string{"1", "2", "3", "5", "9"}).Draw(t, label+"lead")+digits, 10)
+		if n.Cmp(max) <= 0 {
+			n.Add(n, max)
+			n.Add(n, big.NewInt(1))
+		}
+	}
+	return n.String()
 }
 
 func wfParts(w WellFormed) VerParts { return VerParts{E: w.Epoch, V: w.Upstream, R: w.Revision} }
@@ -104,21 +137,68 @@ func genParsedPair(t *rapid.T) ParsedPair {
 		}
 		b.Text = b.canonical()
 	}
-	return ParsedPair{A: a, B: b}
+	p := ParsedPair{A: a, B: b}
+	switch rapid.IntRange(0, 7).Draw(t, "route") {
+	case 0, 1:
+		p.Via = rapid.IntRange(1, 2).Draw(t, "via")
+		// what the variable held before: a relative of the text it receives now (the same text read
+		// with an epoch 0 in front, without its epoch, without its revision, with another revision
+		// behind it), the other operand, or an unrelated version
+		core := strings.TrimSpace(a.Text)
+		rel := []string{"0:" + core, core + "-9", b.canonical(), genWellFormedCore(t, "prev").canonical()}
+		if a.HasEpoch {
+			rel = append(rel, core[len(a.EpochTxt)+1:], "0:"+core, "0:"+core)
+		}
+		if a.HasRev {
+			rel = append(rel, core[:strings.LastIndex(core, "-")])
+		}
+		p.Prev = rapid.SampledFrom(rel).Draw(t, "prevOf")
+	case 2:
+		p.Beyond = beyondUint(t, "beyond")
+		p.A.HasEpoch, p.A.EpochTxt, p.A.Epoch = true, p.Beyond, 0
+		p.A.Text = p.A.canonical()
+		if rapid.Bool().Draw(t, "bAnyEpoch") {
+			// the other operand's epoch anywhere in the range a Version holds
+			e := rapid.Uint64Range(0, uint64(^uint(0))).Draw(t, "bEpoch")
+			p.B.HasEpoch, p.B.Epoch, p.B.EpochTxt = true, e, strconv.FormatUint(e, 10)
+			p.B.Text = p.B.canonical()
+		}
+	}
+	return p
 }
 
 var specC01Parsed = Register(&Spec[ParsedPair]{
 	Prop: "C01", Name: "parsed",
-	Rule: "pairs of Policy-grammar version strings (optional epoch with leading zeros, ':' in upstream only with epoch, '-' only with revision), the second mostly a grammar-preserving neighbour; both parsed with version.Parse, then Compare must order them as the reference comparator orders the renderer's parts. Non-trivial: as C01/model.",
+	Rule: "pairs of Policy-grammar version strings (optional epoch with leading zeros, ':' in upstream only with epoch, '-' only with revision), the second mostly a grammar-preserving neighbour; both parsed with version.Parse, then Compare (both ways round) must order them as the reference comparator orders the renderer's parts. A quarter of the first operands are read with UnmarshalControl / UnmarshalText into a variable that read another text before (the same text behind \"0:\", without its epoch or revision, with \"-9\" behind it, the other operand, an unrelated version); an eighth carry an epoch no Version can hold (just above the platform's uint, a multiple of 2^32 / 2^64 plus a little, 11..26 digits) against a second operand whose epoch lies anywhere in the uint range: Parse refuses those, and if it takes one the written epoch is above every other. Non-trivial: as C01/model.",
 	Check: func(p ParsedPair, r *Recorder) error {
 		pa, pb := wfParts(p.A), wfParts(p.B)
 		cl := classifyPair(VerPair{pa, pb})
 		nt := len(cl) > 0 && cl[0] != "identical"
-		r.Case(p.A.Text+"|"+p.B.Text, nt, cl...)
+		r.Case(fmt.Sprintf("%s|%s|%d|%s", p.A.Text, p.B.Text, p.Via, p.Prev), nt, cl...)
 		if nt {
 			r.Sample([]string{p.A.Text, p.B.Text})
 		}
-		a, err := version.Parse(p.A.Text)
+		var a version.Version
+		var err error
+		how := "Parse"
+		switch p.Via {
+		case 0:
+			a, err = version.Parse(p.A.Text)
+		default:
+			how = fmt.Sprintf("a variable that read %q before and then, with %s,", p.Prev, []string{"", "UnmarshalControl", "UnmarshalText"}[p.Via])
+			r.Count("first-operand-in-a-reused-variable", 1)
+			if p.Via == 1 {
+				if a.UnmarshalControl(p.Prev) != nil {
+					return nil
+				}
+				err = a.UnmarshalControl(p.A.Text)
+			} else {
+				if a.UnmarshalText([]byte(p.Prev)) != nil {
+					return nil
+				}
+				err = a.UnmarshalText([]byte(p.A.Text))
+			}
+		}
 		if err != nil {
 			return nil // acceptance is C03's business
 		}
@@ -127,8 +207,15 @@ var specC01Parsed = Register(&Spec[ParsedPair]{
 			return nil
 		}
 		want := refCompare(pa, pb)
+		if p.Beyond != "" {
+			r.Count("epoch-beyond-uint-was-accepted", 1)
+			want = 1 // epochs compare numerically, and the written one is above all that fit
+		}
 		if got := sign(version.Compare(a, b)); got != want {
-			return errf("Compare(Parse(%q), Parse(%q)) has sign %d, Policy/dpkg order gives %d", p.A.Text, p.B.Text, got, want)
+			return errf("Compare(%s(%q), Parse(%q)) has sign %d, Policy/dpkg order gives %d", how, p.A.Text, p.B.Text, got, want)
+		}
+		if got := sign(version.Compare(b, a)); got != -want {
+			return errf("Compare(Parse(%q), %s(%q)) has sign %d, Policy/dpkg order gives %d", p.B.Text, how, p.A.Text, got, -want)
 		}
 		return nil
 	},
